@@ -2,6 +2,6 @@
 using namespace smooth;
 MC_SUBCHECK(galilei)
 {
-  c15::run<Galileid>("Galileid", 3, 5);
-  c15::run<SE_K_3<double, 2>>("SE_2_3d", 3, 5);
+  c15::run<Galileid>("Galileid", 5, 6);
+  c15::run<SE_K_3<double, 2>>("SE_2_3d", 5, 6);
 }
